@@ -303,15 +303,31 @@ func normIP(ip net.IP) net.IP {
 // ---- policy ceiling ----
 
 func vAllow(k int) AllowEntry {
-	hosts := []string{"a.example", "b.example", "c.example"}
-	return AllowEntry{Scheme: "https", Host: hosts[k], Port: "443"}
+	switch k {
+	case 0:
+		return AllowEntry{Scheme: "https", Host: "a.example", Port: "443"}
+	case 1:
+		return AllowEntry{Scheme: "https", Host: "a.example", Port: "8443"} // same host, other port
+	case 2:
+		return AllowEntry{Scheme: "http", Host: "127.0.0.1", Port: "11434", IP: net.IPv4(127, 0, 0, 1).To4()} // an IP carve-out
+	case 3:
+		return AllowEntry{Scheme: "http", Host: "127.0.0.1", Port: "6379", IP: net.IPv4(127, 0, 0, 1).To4()} // same IP, other port
+	}
+	return AllowEntry{Scheme: "http", Host: "a.example", Port: "443"} // same host and port, other scheme
+}
+
+// vSameEndpoint is the oracle's own notion of "the same allow entry": scheme,
+// host and port all equal (independent of the implementation's key function).
+func vSameEndpoint(a, b AllowEntry) bool {
+	return a.Scheme == b.Scheme && a.Host == b.Host && a.Port == b.Port
 }
 
 func VerifC18Policy() {
 	var per, ceil Policy
 	per.Enabled = verifBool("per.enabled")
 	ceil.Enabled = verifBool("ceil.enabled")
-	for k := 0; k < 3; k++ {
+	hostsOnly := verifParam("hostsOnly", 0) == 1
+	for k := 0; k < verifParam("entries", 3); k++ {
 		if verifBool("per.allow") {
 			per.Allowlist = append(per.Allowlist, vAllow(k))
 		}
@@ -320,6 +336,9 @@ func VerifC18Policy() {
 		}
 	}
 	secrets := []string{"S1", "S2"}
+	if hostsOnly {
+		secrets = nil
+	}
 	for _, sname := range secrets {
 		if verifBool("per.secret") {
 			if per.SecretRefs == nil {
@@ -334,10 +353,14 @@ func VerifC18Policy() {
 			ceil.SecretRefs[sname] = struct{}{}
 		}
 	}
-	per.Timeout = time.Duration(verifInt64("per.timeout"))
-	ceil.Timeout = time.Duration(verifInt64("ceil.timeout"))
-	per.MaxResponseBytes = verifInt64("per.max")
-	ceil.MaxResponseBytes = verifInt64("ceil.max")
+	if hostsOnly {
+		per.Timeout, ceil.Timeout, per.MaxResponseBytes, ceil.MaxResponseBytes = time.Second, time.Second, 1024, 1024
+	} else {
+		per.Timeout = time.Duration(verifInt64("per.timeout"))
+		ceil.Timeout = time.Duration(verifInt64("ceil.timeout"))
+		per.MaxResponseBytes = verifInt64("per.max")
+		ceil.MaxResponseBytes = verifInt64("ceil.max")
+	}
 
 	eff, _ := ResolvePolicy(per, ceil)
 
@@ -351,12 +374,12 @@ func VerifC18Policy() {
 	for _, e := range eff.Allowlist {
 		inPer, inCeil := false, len(ceil.Allowlist) == 0
 		for _, p := range per.Allowlist {
-			if entryKey(p) == entryKey(e) {
+			if vSameEndpoint(p, e) {
 				inPer = true
 			}
 		}
 		for _, c := range ceil.Allowlist {
-			if entryKey(c) == entryKey(e) {
+			if vSameEndpoint(c, e) {
 				inCeil = true
 			}
 		}
